@@ -97,7 +97,7 @@ func runInChildren(t *testing.T, layer string, n int, perChildTimeout time.Durat
 		case strings.Contains(out.String(), "checkptr"):
 			results[running].Fatal = "checkptr: " + firstLineWith(out.String(), "checkptr")
 		default:
-			results[running].Fatal = "fatal: " + firstLineWith(out.String(), "fatal error", "panic:", "SIGSEGV", "signal") + " | " + msg
+			results[running].Fatal = "fatal: " + firstLineWith(out.String(), "DATA RACE", "fatal error", "panic:", "SIGSEGV", "signal") + " in " + libFrames(out.String(), 4) + " | " + msg
 		}
 		from = running + 1
 	}
@@ -120,4 +120,28 @@ func firstLineWith(s string, subs ...string) string {
 		}
 	}
 	return ""
+}
+
+// libFrames lists the first n distinct functions of the library under test that appear in a runtime report.
+func libFrames(s string, n int) string {
+	var out []string
+	seen := map[string]bool{}
+	for _, line := range strings.Split(s, "\n") {
+		line = strings.TrimSpace(line)
+		if i := strings.Index(line, "github.com/go-ap/activitypub."); i >= 0 {
+			f := line[i+len("github.com/go-ap/activitypub."):]
+			if j := strings.Index(f, "("); j > 0 && !strings.HasPrefix(f, "(") {
+				f = f[:j]
+			} else if strings.HasPrefix(f, "(") {
+				if j := strings.Index(f, ")("); j > 0 {
+					f = f[:j+1]
+				}
+			}
+			if !seen[f] && len(out) < n {
+				seen[f] = true
+				out = append(out, f)
+			}
+		}
+	}
+	return strings.Join(out, " <- ")
 }
